@@ -400,6 +400,12 @@ func (lc *LocalClient) FullNamespacePath(path string) (string, error) {
 		log.Warn("Failed to join path: %s: %v", path, err)
 		return "", fmt.Errorf("failed to join path: %s: %w", path, err)
 	}
+	// A path that cleans to "." names the storage directory itself; appending the file
+	// suffix to it would yield "<storagePath>.json", a sibling outside the storage directory.
+	if relPath == "." {
+		log.Warn("Failed to join path: %s: path resolves to the storage directory itself", path)
+		return "", fmt.Errorf("failed to join path: %s: path resolves to the storage directory itself", path)
+	}
 	fullPath := filepath.Join(lc.storagePath, relPath) + lc.FileSuffix
 	return fullPath, nil
 }
